@@ -255,6 +255,24 @@ def run(rep, prog, C, eff, entry_ids):
                 f.reachable_from([tt]) & _blocks(steps))
         rep.ob("R06.7", "ro-refuses|%s" % name, ok and bool(steps),
                "database read_only flag is tested first and its true edge reaches no storage-affecting step", f.file + ":%d" % f.line)
+    # AndaDB::close closes every registered collection on their behalf and publishes the database flag as its admission barrier first:
+    # what each collection was *on its own account* has to be read from that collection (the database flag does not know it)
+    fc = [x for x in prog.fns.values() if x.path == "anda_db::database::AndaDB::close"]
+    if not fc:
+        raise CheckerFault("anchor missing: AndaDB::close")
+    bc = prog.async_body(fc[0]) or fc[0]
+    own = []
+    for h in [bc] + prog.closures_of(bc):
+        if not any("collection::Collection" in (t or "") for t in h.locals):
+            continue
+        for e in h.calls_named(r"Atomic::<bool>::(load|swap|fetch_or|compare_exchange)$"):
+            if anda.recv_fields(h, e) == {"read_only"}:
+                own.append(e)
+    rep.saw(bc, len(own))
+    rep.ob("R06.7", "own-flag-sampled|AndaDB::close", bool(own),
+           "AndaDB::close never reads a collection's own read_only flag: a collection frozen with Collection::set_read_only(true) inside a writable database "
+           "is flushed by the database's close (metadata, ids, index objects, checkpoint) although the handle was read-only when the close began - "
+           "Collection::close, the sibling path, does sample it", bc.file + ":%d" % bc.line)
 
 
 def _bool_switch(f, e):
